@@ -72,7 +72,8 @@ CHECKS = {
         category="translation_validation",
         text="PARTIAL. The Lean parser is the grammar of the dialect plus2json consumes (one partition/group, every "
              "fork/split/switch/repeat closed by its own terminator in nested order, separators only inside their block, "
-             "break/detach last in a branch: parse_ok_core, parse_ok_tail). Every text the real learner emits for the "
+             "break/detach last in a branch: parse_ok_core, parse_ok_tail; complete at token level: grammar_complete recovers "
+             "every normal-form block diagram from its token stream). Every text the real learner emits for the "
              "C01 inputs, plus definitions with several start events and loops ending in forks, must parse, and the "
              "event names of the parsed diagram must be exactly the input's event types with no placeholder "
              "(|||START|||, |||END|||, DUMMY_BREAK, LOOP_n). The writer is not modelled; C05_full is a stated Prop.",
@@ -90,9 +91,13 @@ CHECKS = {
              "calculate_logic_gates is run on the complete outcome family of EVERY tree (quick: all n <= 4 and a seeded "
              "third of n = 5; thorough: all n <= 5 and a seeded twelfth of n = 6) under 2-4 interpreter hash seeds in "
              "separate processes, and Lean judges every returned tree: soundness everywhere, exactness on the sub-class. "
-             "NOT a proof about the function: pm4py's inductive miner and the post-processing are not modelled in Lean "
-             "(DESIGN.md §5 C06 explains why and what a model would need); the finite quantifier is discharged by "
-             "exhaustive execution of the real code with a proved enumerator and proved deciders.",
+             "One step of the code is proved: get_weighted_cover is modelled under every choice `max` may make and "
+             "cover_spec / cover_sound show that a returned cover is disjoint, made of observed sets, covers the universe, "
+             "explains every observed set, and that the OR-of-ANDs gate built from it admits them (tie: the real function's "
+             "answer is a model outcome and satisfies the clauses; process_missing_and_gates builds the model's gate). "
+             "NOT a proof about the whole function: pm4py's inductive miner and the OR inference are not modelled in Lean "
+             "(DESIGN.md §5 C06 explains why); the finite quantifier is discharged by exhaustive execution of the real "
+             "code with a proved enumerator and proved deciders.",
         ref="DESIGN.md §5 C06",
         note="Trusted: Lean kernel for the enumerator/decider theorems (no axioms beyond propext, Quot.sound); pm4py, "
              "pandas and the janus-free import path exercised as they are.",
@@ -205,15 +210,22 @@ CHECKS = {
              "unchanged in every inner record (evalLeaf_outer, evalField_outer); an absent key reads null and a null part "
              "makes the joined value null; skipping is a filterMap so an invalid record or document never affects "
              "another, and per-line mode is a flatMap over lines (source_append, skip_independent, source_invalid_doc). "
-             "Tie: the model's records equal those of the real compiled jq program, and its events equal JSONDataSource's "
-             "from real files in both modes, on seeded OTel-shaped documents x mappings of the documented forms; a third "
-             "independent flattening is the oracle.",
+             "compile_correct_all: under a denotational semantics of the emitted jq fragment (O2P.Jq.eval: generators, "
+             "error propagation, try/catch, //, select, dynamic object keys, add, flatten, join, any/all, `as` bindings) "
+             "the query the compiler emits evaluates, for every mapping and every document, to exactly the model's "
+             "records; compile_wf: allocation is parent-first and the depth-first binding order reaches every variable. "
+             "Tie: the emitted query text equals the Lean emitter's character by character; the Lean jq semantics equals "
+             "the real jq engine on every generated (query, document); the model's records equal the real program's and "
+             "its events equal JSONDataSource's from real files in both modes; a third independent flattening is the "
+             "oracle.",
         ref="DESIGN.md §5 C13",
-        note="Trusted: Lean kernel; axioms propext, Quot.sound, Classical.choice. The jq engine is not modelled (no Lean "
-             "evaluator of jq programs): agreement of the emitted program with the model is differential, not a theorem. "
-             "pydantic coercion modelled for the generated value kinds; floats excluded.",
-        technique="Lean 4 proof (flattening/loop algebra on the extraction model) + differential correspondence against the "
-                  "real jq program and JSONDataSource + independent flattening oracle",
+        note="Trusted: Lean kernel; axioms propext, Quot.sound, Classical.choice. The jq engine is modelled for the emitted "
+             "fragment only and tied differentially; the link between the emitter's text and its expression tree is by "
+             "construction (no jq parser in Lean). pydantic coercion modelled for the generated value kinds; floats "
+             "excluded.",
+        technique="Lean 4 proof (flattening/loop algebra; compiler correctness against a jq semantics) + exact comparison of "
+                  "the emitted query text + differential correspondence against the real jq engine and JSONDataSource + "
+                  "independent flattening oracle",
     ),
     "C14": dict(
         category="proof",
@@ -258,8 +270,11 @@ CHECKS = {
         category="proof",
         text="Lean theorems for every instant 1970..2100 at µs precision: calendar round trip (kernel-checked table of all "
              "47 847 days), parse∘format = id, the OTel direction returns exactly 1000·k for the arithmetic translated from "
-             "the source, texts are injective; the float path of the PV direction is modelled bit-exactly on integers and "
-             "compared with CPython on boundary and random instants (its universal exactness is not yet a theorem).",
+             "the source, texts are injective; the binary64 path of the PV direction (float(n), /1e9, modf, *1e6, round-half-even, "
+             "carry) is modelled bit-exactly on integers and its error analysis is proved over ℚ for every n < 4.2e18 "
+             "(fl_err, fromNanos_near: < 0.995 µs), hence fromNanos_exact, fromNanos_order, pv_otel_pv, otel_pv_otel: both "
+             "round trips for every microsecond instant. Tie: the integer model of the binary64 steps equals CPython on "
+             "boundary (binade edges, ns around whole seconds) and random instants.",
         ref="DESIGN.md §5 C16",
         note="Trusted: Lean kernel; axioms propext, Quot.sound, Classical.choice; translator (format string, divisor, "
              "integer expression) and correspondence run; CPython float/datetime modelled not verified.",
